@@ -180,6 +180,9 @@ def run(ctx):
     ctx.rule("R06.3", "trigger_time is the wall-clock instant; the startup entry is consumed once; the shutdown run is issued from stop()", floor=5)
     trigger_time_rule(ctx, program, "R06.3")
     startup_shutdown_rule(ctx, program, "R06.3")
+    ctx.rule("R06.7", "the startup / shutdown keywords: wherever and however often they occur among the specifications, the function runs at start-up iff "
+             "'startup' is listed (or nothing is), at removal iff 'shutdown' is listed, and exactly the other specifications are left for the timer - both subsystems", floor=20)
+    keyword_table(ctx, program, "R06.7")
     ctx.rule("R06.6", "date/time/offset parsing: for every combination of the documented date forms, time forms and offsets on a grid of current times (leap day, year end, each weekday relation) "
              "parse_date_time returns the instant the documentation denotes", floor=80)
     parse_grid(ctx, program, "R06.6")
@@ -195,6 +198,52 @@ def run(ctx):
         "Def-use of the dispatched trigger_time in the three consumers; once-only structure of startup/shutdown runs.  NOT decided (numeric, out of reach of this technique): "
         "date/time/offset parsing, period arithmetic across days, DST adjustment, cron field matching."
     )
+
+
+KW_CASES = [
+    [], ["startup"], ["shutdown"], ["startup", "shutdown"], ["shutdown", "startup"], ["startup", "startup"], ["shutdown", "shutdown", "startup"],
+    ["once(1:00)", "startup", "shutdown"], ["startup", "cron(* * * * *)", "shutdown"], ["once(1:00)"], ["shutdown", "once(1:00)", "startup", "startup", "once(2:00)"],
+    ["startup", "shutdown", "once(1:00)"],
+]
+
+
+def keyword_table(ctx, program, rid):
+    luid = "trigger.py::TrigInfo.__init__"
+    nuid = "decorators/timing.py::TimeTriggerDecorator.validate"
+    for specs in KW_CASES:
+        want = ("return", "startup" in specs or not specs, "shutdown" in specs, tuple(x for x in specs if x not in ("startup", "shutdown")))
+        lst = ListV([Const(x) for x in specs], "list")
+        # new subsystem
+        pol = FlowPolicy(program, may_raise_all=False, cancel=False, summaries={"super().validate": lambda i, n, a, k, c, o: [(c, NONE)]})
+        pol.loop_unroll = 10
+        pol.live_lists = True  # a list changed while a for loop walks it is walked as Python's list iterator does
+        heap = {"self.args": lst, "self.kwargs": DictV([]), "self.run_on_startup": Const(False), "self.run_on_shutdown": Const(False)}
+        out = run_flow(program, nuid, pol, args={"self": ObjV("self", "TimeTriggerDecorator")}, heap=heap)
+        got = set()
+        for k, c, d in exits(out):
+            ts = c.heap.get("self.timespec")
+            got.add((k, c.heap.get("self.run_on_startup") == Const(True), c.heap.get("self.run_on_shutdown") == Const(True),
+                     tuple(x.v for x in ts.items) if isinstance(ts, ListV) else repr(ts)))
+        ctx.check(got == {want}, rid, nuid, f"new: @time_trigger{tuple(specs)}",
+                  msg=f"@time_trigger{tuple(specs)} (new subsystem): (exit, run at start-up, run at removal, timer specifications) = {sorted(map(repr, got))}, "
+                  f"documented {want}", key=f"new kw {specs}", node=program.func(nuid), rel="decorators/timing.py")
+        # legacy
+        pol = FlowPolicy(program, may_raise_all=False, cancel=False,
+                         summaries={"AstEval": lambda i, n, a, k, c, o: [(c, ObjV("expr", "AstEval"))], "Function.install_ast_funcs": lambda i, n, a, k, c, o: [(c, NONE)],
+                                    "asyncio.Queue": lambda i, n, a, k, c, o: [(c, ObjV("q", "Queue"))]})
+        pol.loop_unroll = 10
+        pol.live_lists = True
+        cfg = DictV([(Const("time_trigger"), DictV([(Const("args"), lst if specs else NONE), (Const("kwargs"), DictV([]))])), (Const("action"), ObjV("act", "EvalFunc")),
+                     (Const("global_sym_table"), DictV([]))])
+        out = run_flow(program, luid, pol, args={"self": ObjV("self", "TrigInfo"), "name": Const("file.x.f"), "trig_cfg": cfg, "global_ctx": ObjV("g", "GlobalContext")})
+        got = set()
+        for k, c, d in exits(out):
+            ts = c.heap.get("self.time_trigger")
+            got.add((k, c.heap.get("self.run_on_startup") == Const(True), c.heap.get("self.run_on_shutdown") == Const(True),
+                     tuple(x.v for x in ts.items) if isinstance(ts, ListV) else (() if ts == NONE else repr(ts))))
+        ctx.check(got == {want}, rid, luid, f"legacy: @time_trigger{tuple(specs)}",
+                  msg=f"@time_trigger{tuple(specs)} (legacy subsystem): (exit, run at start-up, run at removal, timer specifications) = {sorted(map(repr, got))}, "
+                  f"documented {want}", key=f"legacy kw {specs}", node=program.func(luid), rel="trigger.py")
 
 
 class _AdjPolicy(FlowPolicy):
@@ -379,7 +428,7 @@ def startup_shutdown_rule(ctx, program, rid):
 DOW = {"sun": 0, "mon": 1, "tue": 2, "wed": 3, "thu": 4, "fri": 5, "sat": 6}
 P_DATES = ["", "2024/3/1", "2025/01/05", "3/1", "12/31", "sun", "wed", "sat", "today", "tomorrow"]
 P_TIMES = ["", "10:00", "9:30:15.5", "00:00", "23:59:59", "noon", "midnight", "sunrise", "sunset"]
-P_OFFS = ["", "+ 2h", "- 10 min", "+ 1.5 hours", "-3 days", "+2w", "+ 90s", "- 1 sec"]
+P_OFFS = ["", "+ 2h", "- 10 min", "+ 1.5 hours", "-3 days", "+2w", "+ 90s", "- 1 sec", "+ .5h", "-.25 min"]
 P_NOWS = [dt.datetime(2024, 2, 28, 13, 30, 5), dt.datetime(2023, 12, 31, 23, 59, 59, 500000), dt.datetime(2024, 3, 9, 0, 0, 0)]
 SUNRISE, SUNSET = (6, 31, 7), (19, 2, 3)
 OFF_UNITS = {"s": 1, "sec": 1, "min": 60, "h": 3600, "hours": 3600, "days": 86400, "w": 604800}
